@@ -5,7 +5,7 @@
     joined by two FIFO queues, any schedule [ls] of ticks, pushes and deliveries). *)
 From Coq Require Import List Arith NArith.
 From PV Require Import Model.Dedup Model.LogSync Proofs.LogSyncScript Proofs.LogSyncOps Proofs.LogSyncJoint
-  Proofs.LogSyncTerm Proofs.LogSyncRecv Proofs.LogSyncMain.
+  Proofs.LogSyncTerm Proofs.LogSyncRecv Proofs.LogSyncIds Proofs.LogSyncMain.
 Import ListNotations.
 
 (** What a side sends is a function of its own replica and the Have it accepted only: for every
@@ -52,6 +52,24 @@ Theorem C19_received_exact :
       ev_ops (n_hist (sb y)) = ops_of (scA rA rB logsA logsB).
 Proof. exact received_exact. Qed.
 Print Assumptions C19_received_exact.
+
+(** The same with the id hypothesis discharged from well-formedness of the replicas: ids are a
+    function of (author, log, seq) shared by both replicas and injective on their rows (no forks), sequence numbers
+    are unique within a log, every author / log is configured once, sizes are positive.  Then each
+    application is handed exactly [expected_ops] of the other replica: the other side's stored
+    operations of the configured logs with a sequence number above the own height, each once, in
+    log order, and nothing else. *)
+Theorem C19_received_exact_wf :
+  forall (idf : N * N * N -> N) (rA rB : replica) (logsA logsB : list (N * list N)) (cbuf : option nat)
+         (cap : nat) (ls : list label) (y : sys),
+    inj_on_reps idf rA rB -> wf_ids idf rA -> wf_ids idf rB -> nodup_seqs rA -> nodup_seqs rB ->
+    nodup_cfg logsA -> nodup_cfg logsB -> pos_sizes rA -> pos_sizes rB ->
+    exec true cbuf rA rB (sys0 logsA logsB cap) ls = Some y -> finished y = true ->
+    sent (n_hist (sa y)) = scA rA rB logsA logsB /\ sent (n_hist (sb y)) = scB rA rB logsA logsB /\
+    ev_ops (n_hist (sa y)) = expected_ops rB logsB (local_heights rA logsA) /\
+    ev_ops (n_hist (sb y)) = expected_ops rA logsA (local_heights rB logsB).
+Proof. exact received_exact_wf. Qed.
+Print Assumptions C19_received_exact_wf.
 
 (** After ingesting what they were handed, both replicas hold the pointwise maximum of the two
     heights on every configured log. *)
